@@ -319,6 +319,13 @@ class Run:
             if a["what"] == "dc":
                 self.add_channel(side, pc.createDataChannel("late%d" % self.napp))
                 idx = len(self.channels[side]) - 1
+            elif a["what"] == "close_dc":      # the application closes an open data channel
+                chs = [c for c in self.channels[side] if c.readyState == "open"]
+                if chs:
+                    idx = self.channels[side].index(chs[0])
+                    chs[0].close()
+                else:
+                    res = "skipped"
             else:
                 pc.addTransceiver(a["what"], direction=a.get("dir", "sendrecv"))
         except Exception as e:  # noqa  (e.g. InvalidStateError once the connection is closed)
@@ -326,6 +333,8 @@ class Run:
         sctp = getattr(pc, "sctp", None)
         self.log(op="app", side=side, what=a["what"], res=res, at=a["trig"].get("kind"), chan=idx, pcsig=pcsig,
                  sctp=str(getattr(sctp, "state", "none")), conn=str(pc.connectionState), closing=1 if self.close_started[side] else 0)
+        if a.get("then_close") is not None and not self.fired:
+            self.close_after = self.iter + int(a["then_close"])     # close() n loop iterations after this action
         self.scan()
 
     def at_script(self, label, phase):
@@ -462,10 +471,56 @@ class Run:
                 threads["B"].append("?" + th.name)
             else:
                 threads[owner].append(th.name)
+        for name, owner in getattr(self, "late_tasks", []):
+            for sd in ([owner] if owner in tasks else ["A", "B"]):
+                tasks[sd].append("late:" + name)
         for d in (tasks, threads):
             for s in d:
                 d[s].sort()
         return tasks, threads
+
+    async def time_passes(self):
+        """After every close() has returned and the loop is quiet: the timers of aiortc / aioice
+        objects that are still armed fire now (time passes).  A task they start is a task started
+        by a closed connection; it is recorded even if it has ended again by the final census."""
+        loop = asyncio.get_event_loop()
+        self.late_tasks = []
+
+        def factory(lp, coro, **kw):
+            task = asyncio.Task(coro, loop=lp, **kw)
+            try:
+                code = getattr(coro, "cr_code", None)
+                parts = (code.co_filename if code is not None else "").replace("\\", "/").split("/")
+                if "aiortc" in parts or "aioice" in parts:
+                    frame = getattr(coro, "cr_frame", None)
+                    me = frame.f_locals.get("self") if frame is not None else None
+                    self.late_tasks.append((getattr(coro, "__qualname__", None) or repr(coro), self.owner.get(id(me))))
+            except Exception:  # noqa
+                pass
+            return task
+        fired = 0
+        loop.set_task_factory(factory)
+        try:
+            for h in list(getattr(loop, "_scheduled", [])):
+                if h._cancelled:
+                    continue
+                cb = h._callback
+                me = getattr(cb, "__self__", None)
+                mod = type(me).__module__ if me is not None else ""
+                if mod.startswith("aiortc") or mod.startswith("aioice"):
+                    args = h._args
+                    h.cancel()
+                    fired += 1
+                    try:
+                        cb(*args)
+                    except Exception as e:  # noqa
+                        self.late_tasks.append(("timer %s raised %s" % (getattr(cb, "__qualname__", "?"), type(e).__name__),
+                                                self.owner.get(id(me))))
+            for _ in range(6):
+                await asyncio.sleep(0)
+        finally:
+            loop.set_task_factory(None)
+        self.info["timers_fired_after_close"] = fired
 
     def clean(self):
         tasks, threads = self.census()
@@ -623,6 +678,8 @@ class Run:
             self.iter += 1
             if tr["kind"] == "iter" and not self.fired and self.iter >= tr["k"]:
                 self.fire("iter:%d" % self.iter)
+            if getattr(self, "close_after", None) is not None and not self.fired and self.iter >= self.close_after:
+                self.fire("after_app:%d" % self.iter)
             if self.app:
                 for side, pc in self.pcs.items():
                     if self.marks["sctp_closed"][side] is None:
@@ -661,6 +718,7 @@ class Run:
                     break
                 await asyncio.sleep(0.01)
             self.info["grace_s"] = round(time.time() - t0, 3)
+            await self.time_passes()
             for side in SIDES:
                 self.observe(side, final=True)
         finally:
@@ -1135,6 +1193,16 @@ def app_points(r, refs, thorough):
                     pts.append({"cfg": cfg, "trig": {"kind": "script", "label": ["flowing", "connected", "end"][(ti + ci) % 3], "phase": "enter"},
                                 "mode": "single", "side": x, "gap_ms": 0, "settle_ms": [60, 250][ti % 2], "src": "app",
                                 "app": [{"what": what, "side": other(x), "trig": dict(trig)}]})
+    # Family `close_dc`: the application closes an open channel and the connection is closed n loop
+    # iterations later, i.e. while the stream reset is unanswered (its retransmission timer armed).
+    for ci, cfg in enumerate([SAMPLE_CFGS[0], SAMPLE_CFGS[2]] + ([SAMPLE_CFGS[3]] if thorough else [])):
+        for x in SIDES:
+            for y in SIDES:
+                for n in ((0, 1, 2, 3, 5, 8) if thorough else ((0, 2) if (ci + (x == y)) % 2 else (1, 4))):
+                    pts.append({"cfg": cfg, "trig": {"kind": "script", "label": "end", "phase": "enter"}, "mode": "single" if n % 2 == 0 else "both",
+                                "side": y, "gap_ms": 0, "settle_ms": 20, "src": "app",
+                                "app": [{"what": "close_dc", "side": x, "trig": {"kind": "script", "label": "flowing", "phase": "enter"},
+                                         "then_close": n}]})
     labs = [("script", l, "enter") for l in ("pre",) + SCRIPT_CALLS + ("post", "connected", "flowing")]
     labs += [("script", l, "exit") for l in SCRIPT_CALLS]
     labs += [("label", l, ph) for l in LABELS for ph in (("exit",) if l == "ice_check_done" else ("enter", "exit"))]
